@@ -180,6 +180,14 @@ func runC04(c *Ctx) {
 		c.verdict(okArg, c.nm(fn)+" | the callback receives the peer's own quit channel", c.P.Pos(fn.Pos()), "peerQuits[sm.sp.Addr()] tested and passed on", "the per-peer quit channel tested before the callback is not the one handed to it")
 	})
 
+	c.rule("C04.G2", "a cfheaders answer is written only under the blocks it was computed for: writeCFHeadersMsg pairs the filter headers with the block headers it fetches by the message's own StopHash (FetchHeaderAncestors(n-1, &msg.StopHash) = nil guards the write), so an honest answer that a reorganisation has overtaken is refused rather than written under the new branch's blocks (where it would make every later honest answer mismatch the stored tip and get the honest peers banned)", func() {
+		fn := c.fn(fnWriteCFH)
+		writes := find(fn, callTo(c.method("headerfs", "FilterHeaderStore", "WriteHeaders")))
+		stopHash := c.field(pWire, "MsgCFHeaders", "StopHash")
+		anc := find(fn, anyArg(callTo(c.method("headerfs", "BlockHeaderStore", "FetchHeaderAncestors")), fieldAddrOf(stopHash)))
+		c.guarded(fn, errNil("BlockHeaders.FetchHeaderAncestors(n-1,&msg.StopHash)", anc, 2), 1, "store.WriteHeaders", writes, 1, gDominate)
+	})
+
 	c.rule("C04.O5", "after a reorganisation the filter headers still match the block headers: "+filterRollbackFirstDoc, func() { c.filterRollbackFirst() })
 
 	c.rule("C04.O3", "the peer can locate the fork point: every getheaders request that starts a sync or answers a block announcement (all PushGetHeadersMsg sites of the block manager except the in-batch continuation in handleHeadersMsg, whose single hash the peer itself just supplied) carries a locator that includes the stored chain's LatestBlockLocator, so a peer whose best chain no longer contains our tip still finds the common ancestor", func() {
